@@ -34,7 +34,10 @@ class Leaf(Node):
     self.value = value
 
   def sketch(self, seen):
-    return repr(self.value)[:40]
+    try:
+      return repr(self.value)[:40]
+    except Exception:  # pylint: disable=broad-except
+      return f'<{type(self.value).__name__}: repr raises>'
 
 
 class Seq(Node):
@@ -372,7 +375,7 @@ class DagGen:
     for p in positional[npos:]:
       if p.kind == p.POSITIONAL_ONLY:
         continue
-      if p.default is p.empty or rng.random() < 0.5:
+      if p.default is p.empty or rng.random() < 0.5 or (p.name == 'uid' and self.o.uid):
         n.kw[p.name] = self.arg_value(p, depth)
     for p in ps:
       if p.kind == p.KEYWORD_ONLY and (p.default is p.empty or rng.random() < 0.5):
